@@ -91,6 +91,7 @@ type zzMon struct {
 	crashes    int
 	maxCrashes int
 	crashInit  bool // lifecycle handlers may crash (decided per incarnation)
+	crashStop  bool // the Stopped handler may crash too (prop 7: every stop context still becomes done)
 	mwN        int
 	mwActive   []int
 	mwSeen     []any
@@ -140,6 +141,10 @@ func (a *zzActor) Receive(c *Context) {
 		}
 	case Stopped:
 		m.recs = append(m.recs, zzRec{inc: a.inc, kind: zzKStopped})
+		if m.crashStop && zzrt.NondetBool("crashInStopped") {
+			m.recs[len(m.recs)-1].crashed = true
+			m.crash("stopped")
+		}
 	case zzUser:
 		if m.onUser != nil {
 			m.onUser(msg.Seq)
